@@ -37,12 +37,16 @@ TRUSTED = [
     "harness/src/bin/vmops.rs + cfg(boa_verif) hooks boa_engine::verif::vm_depths, CodeBlock::verif_dump (register counts are read from the implementation)",
 ]
 
-FIX_NAMES = ["handle-throw-exit-early-caller", "uncatchable-error-unwind", "call-error-before-frame", "declaration-instantiation-error"]
+FIX_NAMES = ["handle-throw-exit-early-caller", "uncatchable-error-unwind", "call-error-before-frame", "declaration-instantiation-error",
+             "module-link-frame", "pending-exception"]
+NFIX = len(FIX_NAMES)
 FIX_WHAT = {
     "handle-throw-exit-early-caller": "Context::handle_throw returns Break at an EXIT_EARLY caller without truncate_to_frame: an uncaught throw from a callee of the entry frame leaves this/func/args/registers of both frames on the value stack",
     "uncatchable-error-unwind": "the uncatchable branch of Context::handle_error truncates only to the last popped frame (or not at all): every runtime-limit hit leaves the entry frame's this/func/args/registers on the value stack",
     "call-error-before-frame": "JsObject::call/construct return the Err of [[Call]]/[[Construct]] (limit in function_call, class constructor without new, ...) without popping the pushed this/func/args",
     "declaration-instantiation-error": "Script::prepare_run / perform_eval pop the frame on a declaration-instantiation error without truncating the value stack",
+    "module-link-frame": "SourceTextModule::initialize_environment pushes this/func/registers with push_frame_with_stack and only pops the frame: every linked source-text module leaves 2 + register_count values on the value stack",
+    "pending-exception": "the uncatchable branch of Context::handle_error leaves vm.pending_exception set (engine error inside a finally block that still has an exception to rethrow); a later generator.return() through try/finally rethrows the stale exception",
 }
 
 def load_corpus():
@@ -52,6 +56,7 @@ def load_corpus():
 
 
 CALIB = load_corpus()
+CLASS_OF = {k: ("stale-pending-exception" if k == 5 else "leak-" + FIX_NAMES[k]) for k in range(NFIX)}
 
 
 # ------------------------------------------------------------------------------------------------
@@ -104,8 +109,9 @@ def run_model(driver, cases, timeout=900):
 MARK = 4000   # ids of the top-level markers (probe ids of a history stay far below)
 
 
-def resolve_tree(entries, rows):
-    """fill the symbolic register counts from the dumps; returns (tree, unresolved names)"""
+def resolve_tree(entries, rows, modlink_fixed=True):
+    """fill the symbolic register counts from the dumps; returns (tree, unresolved names).  The code block of a module
+    cannot be dumped: its register count is derived from the first probe of the module body."""
     regs = {}
     for e, r in zip(entries, rows):
         for name, n in r["blocks"].items():
@@ -114,6 +120,10 @@ def resolve_tree(entries, rows):
                     regs[e.main] = n
             else:
                 regs[name] = n
+        mod = getattr(e, "module", None)
+        if mod and r["probes"] and r["probes"][0][0] == e.first_probe and r["before"]:
+            d = r["probes"][0][2] - r["before"][1]
+            regs[mod] = (d - 2 if modlink_fixed else d // 2 - 2)
     missing = set()
 
     def sub(m):
@@ -122,33 +132,44 @@ def resolve_tree(entries, rows):
             return str(regs[n])
         missing.add(n)
         return "0"
-    parts = []
-    for i, e in enumerate(entries):
-        parts.append(re.sub(r"R:(\w+)", sub, e.ract))
-        parts.append("(probe %d)" % (MARK + i))
-    return "(" + " ".join(parts) + ")", missing
+    parts = [re.sub(r"R:(\w+)", sub, e.ract) for e in entries]
+    return "(" + " ".join(parts) + ")", missing, regs
 
 
-def split_model_obs(obs, n):
-    """model observations per top-level entry: list of dicts {probes, compl, after}"""
+def split_model_obs(obs, entries):
+    """model observations per planned entry (a module entry is two top-level racts): list of dicts"""
     out = []
-    cur = {"probes": [], "limit": None, "done": None}
+    cur = {"probes": [], "limit": None, "done": None, "untidy": False}
+    groups = []
     for o in obs:
         f = o.split(":")
         if f[0] == "P":
-            pid = int(f[1])
-            if pid >= MARK:
-                cur["after"] = (int(f[2]), int(f[3]), int(f[4]))
-                out.append(cur)
-                cur = {"probes": [], "limit": None, "done": None}
-            else:
-                cur["probes"].append((pid, int(f[2]), int(f[3]), int(f[4])))
+            cur["probes"].append((int(f[1]), int(f[2]), int(f[3]), int(f[4])))
         elif f[0] == "L":
             if cur["limit"] is None:
                 cur["limit"] = f[1]
         elif f[0] == "D":
             cur["done"] = f[1]
-    return out
+        elif f[0] == "U":
+            cur["untidy"] = True
+        elif f[0] == "E":
+            cur["after"] = (int(f[1]), int(f[2]), int(f[3]), int(f[4]))
+            groups.append(cur)
+            cur = {"probes": [], "limit": None, "done": None, "untidy": False}
+    k = 0
+    for e in entries:
+        n = 2 if getattr(e, "module", None) else 1
+        g = groups[k:k + n]
+        k += n
+        if len(g) != n:
+            return None
+        m = g[-1]
+        if n == 2:
+            m = dict(m)
+            m["probes"] = g[0]["probes"] + g[1]["probes"]
+            m["untidy"] = g[0]["untidy"] or g[1]["untidy"]
+        out.append(m)
+    return out if k == len(groups) else None
 
 
 def compl_class(c):
@@ -173,15 +194,15 @@ def model_compl(m, entry):
 
 def compare_history(entries, rows, mobs):
     """first disagreement between implementation rows (rows[0] is the ctx line) and model observations, or None"""
-    ms = split_model_obs(mobs, len(entries))
-    if len(ms) != len(entries):
-        return {"what": "model produced %d entries for %d planned" % (len(ms), len(entries))}
+    ms = split_model_obs(mobs, entries)
+    if ms is None:
+        return {"what": "model output does not have one group per planned entry"}
     for i, (e, r, m) in enumerate(zip(entries, rows[1:], ms)):
         ic = compl_class(r["compl"])
         mc = model_compl(m, e)
         ip = [(p[0], p[1], p[2], p[4]) for p in r["probes"]]
-        ia = (r["after"][0], r["after"][1], r["after"][3]) if r["after"] else None
-        if ic != mc or ip != m["probes"] or ia != m["after"]:
+        ia = (r["after"][0], r["after"][1], r["after"][3], r["after"][2]) if r["after"] else None
+        if ic != mc or ip != m["probes"] or ia != m["after"] or (m["untidy"] and r["before"][2] == 0):
             return {"entry": i, "op": e.op, "cat": e.cat, "impl": {"compl": r["compl"], "probes": ip, "after": ia},
                     "model": {"compl": mc, "probes": m["probes"], "after": m["after"]}}
     return None
@@ -204,8 +225,10 @@ def calibrate(binpath):
     for (k, setup, probe), i in zip(CALIB, idx):
         r = rows[i]
         leak = r["after"][1] - r["before"][1]
+        if k == 5:
+            leak = r["after"][2]
         flags.append(leak == 0)
-        leaks.append({"class": "leak-" + FIX_NAMES[k], "ops": ["ctx 0 64 20000 200"] + setup + [probe], "before": r["before"], "after": r["after"],
+        leaks.append({"class": CLASS_OF[k], "ops": ["ctx 0 64 20000 200"] + setup + [probe], "before": r["before"], "after": r["after"],
                       "completion": r["compl"], "leak": leak})
     return flags, leaks
 
@@ -215,19 +238,19 @@ def classify(driver, entry_tree, rlimit, slimit, fxbits):
     calibrated state of /repo, smallest first, then in the fixed order of FIX_NAMES) under which the model runs this
     entry from a clean state without leaving anything on the value stack"""
     import itertools
-    missing = [k for k in range(4) if fxbits[k] == "0"]
+    missing = [k for k in range(NFIX) if fxbits[k] == "0"]
     subsets = []
     for n in range(1, len(missing) + 1):
         subsets += list(itertools.combinations(missing, n))
     cases = []
     for sub in subsets:
-        b = "".join("1" if (k in sub or fxbits[k] == "1") else "0" for k in range(4))
+        b = "".join("1" if (k in sub or fxbits[k] == "1") else "0" for k in range(NFIX))
         cases.append(("s" + "".join(str(k) for k in sub), b, rlimit, slimit, "(%s)" % entry_tree))
     res = run_model(driver, cases, timeout=120) if cases else {}
     for sub in subsets:
         o = (res or {}).get("s" + "".join(str(k) for k in sub))
-        if o and not isinstance(o, str) and int(o[-1].split(":")[2]) == 0:
-            return "leak-" + "+".join(FIX_NAMES[k] for k in sub)
+        if o and not isinstance(o, str) and int(o[-1].split(":")[2]) == 0 and not any(x.startswith("E:") and x.endswith(":1") for x in o):
+            return CLASS_OF[sub[0]] if len(sub) == 1 else "leak-" + "+".join(FIX_NAMES[k] for k in sub)
     return "leak-unclassified"
 
 
@@ -241,6 +264,7 @@ def single_entry_tree(entries, rows, i):
                     regs[e.main] = n
             else:
                 regs[name] = n
+    _, _, regs = resolve_tree(entries, rows)
     return re.sub(r"R:(\w+)", lambda m: str(regs.get(m.group(1), 0)), entries[i].ract)
 
 
@@ -291,7 +315,7 @@ def main():
         if not f:
             findings.append({"kind": "counterexample", "class": lk["class"], "input": lk["ops"], "impl_output": {k: lk[k] for k in ("before", "after", "completion", "leak")},
                              "obligation": "value-stack length after a host entry = length before (Props_C07.host_entry_balanced; model witness: Props_C07.each_fix_needed)",
-                             "what": FIX_WHAT[lk["class"][5:]],
+                             "what": FIX_WHAT[FIX_NAMES[[c for c in CLASS_OF if CLASS_OF[c] == lk["class"]][0]]],
                              "how_to_rerun": "printf '%s\\n' " + " ".join("'%s'" % o for o in lk["ops"]) + " | harness/target/debug/vmops"})
 
     T['calibration'] = round(_t.time() - t0, 1); t0 = _t.time()
@@ -325,7 +349,7 @@ def main():
             bad = next(r for r in rows if r["compl"].startswith("P:"))
             corr_bad.append({"history": k, "ops": ops, "first": {"what": "rust panic in the engine", "op": bad["op"], "compl": bad["compl"]}, "limits": (rl, sl, ll)})
             continue
-        tree, missing = resolve_tree(entries, rows[1:])
+        tree, missing, _ = resolve_tree(entries, rows[1:], flags[4])
         hist[str(k)] = (ops, entries, rows, (rl, sl, ll), missing)
         cases.append((str(k), fxbits, rl, sl, tree))
     T['harness_histories'] = round(_t.time() - t0, 1); t0 = _t.time()
@@ -422,7 +446,9 @@ def main():
         if f["class"] in seen:
             continue
         seen.add(f["class"])
-        if f["class"].startswith("leak-") and f["class"] != "leak-unclassified":
+        if f["class"] == "stale-pending-exception":
+            f.setdefault("what", FIX_WHAT["pending-exception"])
+        elif f["class"].startswith("leak-") and f["class"] != "leak-unclassified":
             parts = f["class"][5:].split("+")
             f.setdefault("what", "; ".join(FIX_WHAT.get(p, p) for p in parts))
         run.violation(f)
